@@ -3025,9 +3025,9 @@ impl Server {
         
         let increment = match &parts[2] {
             RespFrame::BulkString(Some(bytes)) => {
-                match String::from_utf8_lossy(bytes).parse::<i64>() {
-                    Ok(n) => n,
-                    Err(_) => return Ok(RespFrame::error("ERR value is not an integer or out of range")),
+                match crate::storage::value::parse_strict_i64(bytes) {
+                    Some(n) => n,
+                    None => return Ok(RespFrame::error("ERR value is not an integer or out of range")),
                 }
             }
             _ => return Ok(RespFrame::error("ERR invalid increment format")),
@@ -3336,9 +3336,9 @@ impl Server {
         
         let decrement = match &parts[2] {
             RespFrame::BulkString(Some(bytes)) => {
-                match String::from_utf8_lossy(bytes).parse::<i64>() {
-                    Ok(n) => n,
-                    Err(_) => return Ok(RespFrame::error("ERR value is not an integer or out of range")),
+                match crate::storage::value::parse_strict_i64(bytes) {
+                    Some(n) => n,
+                    None => return Ok(RespFrame::error("ERR value is not an integer or out of range")),
                 }
             }
             _ => return Ok(RespFrame::error("ERR invalid decrement format")),
